@@ -7,6 +7,7 @@
   if that evaluation does not produce a value, neither does the whole.
 -/
 import Props.Tables
+import Proofs.ErrFlow
 import Jmes.Interp
 namespace Jmes.Props
 open Jmes Jmes.Interp
@@ -14,6 +15,15 @@ open Jmes Jmes.Interp
 theorem C11_generated_table_ok : TableOK Generated.table = true := generated_table_ok
 theorem C11_generated_sigs_ok : SigsOK Generated.functionTable Spec.functionTable = true := generated_sigs_ok
 theorem C11_generated_lex_ok : LexTablesOK Model.lexTables Spec.lexTables = true := generated_lex_ok
+
+/-- The regenerated error-flow facts (tools/errflow, go/ssa): at every call site of the package whose callee
+    returns an error, the error is returned to the caller (as it is, or replaced by another error), except at
+    the sites `Spec.allowed` lists (the sorters' `Less`, `to_number`'s ParseFloat, in-memory buffer writes,
+    MustCompile's panic, the parser's token alternatives). -/
+theorem C11_generated_errflow_ok : Spec.ErrFlowOK GeneratedErrFlow.sites = true := generated_errflow_ok
+
+theorem C11_errors_are_returned_at_every_call_site (s : GeneratedErrFlow.Site) (h : s ∈ GeneratedErrFlow.sites) :
+    s.status = .propagated ∨ s.status = .replaced ∨ Spec.allowed s = true := errflow_site s h
 
 variable {N : Type} [NumOps N]
 
